@@ -344,7 +344,16 @@ func PresenceOK(s *Shape, set map[string]bool) bool {
 }
 
 func validObject(r *wk.Rand, s *Shape, env *Env, depth int) (any, bool) {
-	for try := 0; try < 25; try++ {
+	// A subset of properties that breaks a presence rule is cheap to retry. A property value that cannot be generated
+	// is not: every level that retries it 25 times multiplies the work (25^depth attempts for one unsatisfiable leaf),
+	// so those failures are counted separately and the deeper the object, the sooner it gives up.
+	childFails, childFailLimit := 0, 3
+	if depth == 1 {
+		childFailLimit = 2
+	} else if depth > 1 {
+		childFailLimit = 1
+	}
+	for try := 0; try < 25 && childFails < childFailLimit; try++ {
 		supplied := map[string]bool{}
 		set := map[string]bool{}
 		for _, p := range s.Props {
@@ -374,6 +383,7 @@ func validObject(r *wk.Rand, s *Shape, env *Env, depth int) (any, bool) {
 			v, vok := ValidRaw(r, p.T, env, depth+1)
 			if !vok {
 				ok = false
+				childFails++
 				break
 			}
 			if p.EmptyDef && isEmptyRaw(v) {
